@@ -72,15 +72,6 @@ Proof. intros H. unfold store_logs. rewrite H. reflexivity. Qed.
 
 (* ------------------------------------------------------------------ *)
 (* StoreLogs / DeleteRange from the degraded modes (no settle needed)    *)
-Lemma Mode_seal c nb w d nom defer : Seal c nb w d -> sp_of (sh d) = nom -> Mode c nb w d nom defer.
-Proof.
-  intros HS Hsp. right. destruct HS as (tw & A & B & C & HL & HN). split; [apply (LInv_closed _ _ _ _ HL)|].
-  right. left. split; [exists tw; auto|exact Hsp].
-Qed.
-
-Lemma RD_seal c nb w d alts defer : Seal c nb w d -> In (sp_of (sh d)) alts -> RD c nb d alts defer.
-Proof. intros (tw & A & B & C & HL & HN) Hin. eapply RD_of_clean; eauto. Qed.
-
 Lemma store_seal c nb w e nom alts defer ls : Seal c nb w (e_disk e) -> sp_of (sh (e_disk e)) = nom -> In nom alts ->
   exists r, store_logs c w ls e = (r, w, e) /\ mut_post c nb w (e_disk e) nom alts defer (OStore ls) r.
 Proof.
